@@ -91,6 +91,12 @@ func FuncName(fn *ssa.Function) string {
 	if fn.Pkg == nil {
 		return fn.String()
 	}
+	if fn.Parent() != nil {
+		n := fn.Name()
+		if i := strings.LastIndex(n, "$"); i >= 0 {
+			return FuncName(fn.Parent()) + n[i:]
+		}
+	}
 	s := fn.RelString(fn.Pkg.Pkg)
 	return s
 }
